@@ -65,6 +65,19 @@ func (r *Rng) Bytes(n int) []byte {
 }
 func (r *Rng) Pick(xs ...int) int { return xs[r.Intn(len(xs))] }
 
+// Perm: a random permutation of 0..n-1 (Fisher-Yates)
+func (r *Rng) Perm(n int) []int {
+	p := make([]int, n)
+	for i := range p {
+		p[i] = i
+	}
+	for i := n - 1; i > 0; i-- {
+		j := r.Intn(i + 1)
+		p[i], p[j] = p[j], p[i]
+	}
+	return p
+}
+
 // ---- token helpers
 
 func hx(b []byte) string {
@@ -119,6 +132,37 @@ func splitOr(s, sep string) []string {
 func utf8Variant(r *Rng, s string) string {
 	if len(s) == 0 {
 		return s
+	}
+	// half of the time: a rune that Unicode case mapping folds to an ASCII letter of the string
+	// (KELVIN SIGN -> k, LATIN CAPITAL I WITH DOT ABOVE -> i, DOTLESS I -> I, LONG S -> S), in the string as is,
+	// upper-cased or lower-cased, so that a parser normalising case before validating is exposed
+	if r.Intn(2) == 0 {
+		t := s
+		switch r.Intn(3) {
+		case 0:
+			t = strings.ToUpper(s)
+		case 1:
+			t = strings.ToLower(s)
+		}
+		pos := []int{}
+		for i := 0; i < len(t); i++ {
+			if strings.IndexByte("KkIiSs", t[i]) >= 0 {
+				pos = append(pos, i)
+			}
+		}
+		if len(pos) > 0 {
+			k := pos[r.Intn(len(pos))]
+			var cp rune
+			switch t[k] {
+			case 'K', 'k':
+				cp = 0x212A
+			case 'I', 'i':
+				cp = rune(r.Pick(0x130, 0x131))
+			default:
+				cp = 0x17F
+			}
+			return t[:k] + string(cp) + t[k+1:]
+		}
 	}
 	k := r.Intn(len(s))
 	cp := rune([]int{0x100, 0x2100, 0x1f000, 0x300}[r.Intn(4)]) | rune(s[k])
@@ -214,11 +258,13 @@ func main() {
 				l = l[:i]
 			}
 			tok := strings.Split(l, " ")
-			if len(tok) < 3 || tok[0] != id {
+			// a replay file may hold cases of streams shared with other properties: each line names its own stream
+			lp, ok := props[tok[0]]
+			if len(tok) < 3 || !ok {
 				continue
 			}
 			c := Case{Op: tok[1], Cls: tok[2], Args: tok[3:]}
-			fmt.Fprintln(out, line(id, c, safeExec(p, c)))
+			fmt.Fprintln(out, line(tok[0], c, safeExec(lp, c)))
 		}
 	}
 }
